@@ -636,39 +636,36 @@ Theorem C17_a32_write_offset_outside_mask : forall f old off w mask,
 Proof. exact a32_write_offset_outside. Qed.
 Print Assumptions C17_a32_write_offset_outside_mask.
 
-(* 8-byte unsigned fields (encode_offset64): round trip and exact refusal for every int64 offset -- for the code as it is when
-   bits + discard <= 63, and without that restriction once negative displacements are refused first (fixed tree) *)
-From Verif Require Import Codec.Unsigned64Model Codec.Unsigned64Proofs.
+(* 8-byte unsigned fields (encode_offset64): the int64 argument is the two's-complement image of a uint64 displacement
+   (absolute addresses >= 2^63 are stored through the 64-bit format), so round trip and refusal are stated over
+   off mod 2^64, for EVERY well-formed 8-byte format and every int64 argument; with bits + discard <= 63 this is the int64
+   offset itself *)
+From Verif Require Import Codec.Unsigned64Proofs.
 
 Theorem C17_unsigned64_roundtrip : forall f off m,
-  ty f = UnsignedOffset -> wf_contig64 f -> int64 off -> bits f + discard f <= 63 ->
+  ty f = UnsignedOffset -> wf_contig64 f -> int64 off ->
   encode_offset f off = Some m ->
-  decode_unsigned f m = off /\ 0 <= m < 2 ^ (bits f + shift f) /\ m mod 2 ^ shift f = 0.
+  decode_unsigned f m = off mod 2 ^ 64 /\ 0 <= m < 2 ^ (bits f + shift f) /\ m mod 2 ^ shift f = 0.
 Proof. exact unsigned64_roundtrip. Qed.
 Print Assumptions C17_unsigned64_roundtrip.
 
 Theorem C17_unsigned64_refused_iff : forall f off,
-  ty f = UnsignedOffset -> wf_contig64 f -> int64 off -> bits f + discard f <= 63 ->
-  (encode_offset f off = None <-> ~ (off mod 2 ^ discard f = 0 /\ 0 <= off / 2 ^ discard f < 2 ^ bits f)).
+  ty f = UnsignedOffset -> wf_contig64 f -> int64 off ->
+  (encode_offset f off = None <->
+   ~ ((off mod 2 ^ 64) mod 2 ^ discard f = 0 /\ 0 <= (off mod 2 ^ 64) / 2 ^ discard f < 2 ^ bits f)).
 Proof. exact unsigned64_refused_iff. Qed.
 Print Assumptions C17_unsigned64_refused_iff.
 
-Theorem C17_unsigned64_fixed_spec : forall fb fc f off,
-  ty f = UnsignedOffset -> wf_contig64 f -> int64 off ->
-  match encode_offset_top fb fc true f off with
-  | Some m => (off mod 2 ^ discard f = 0 /\ 0 <= off / 2 ^ discard f < 2 ^ bits f) /\
-              m = (off / 2 ^ discard f) * 2 ^ shift f /\ decode_unsigned f m = off
-  | None => ~ (off mod 2 ^ discard f = 0 /\ 0 <= off / 2 ^ discard f < 2 ^ bits f)
-  end.
-Proof. exact unsigned64_top_spec. Qed.
-Print Assumptions C17_unsigned64_fixed_spec.
+Theorem C17_unsigned64_int64_reading : forall off, int64 off ->
+  off mod 2 ^ 64 = if off <? 0 then off + 2 ^ 64 else off.
+Proof. exact u64_of_int64. Qed.
+Print Assumptions C17_unsigned64_int64_reading.
 
-(* KNOWN FINDING: with bits + discard = 64 the code as it is stores a negative displacement as its two's complement *)
-Theorem C17_unsigned64_negative_refuted :
-  exists f off m, ty f = UnsignedOffset /\ wf_contig64 f /\ int64 off /\ off < 0 /\
-                  encode_offset f off = Some m /\ decode_unsigned f m <> off.
-Proof. exact unsigned64_negative_refuted. Qed.
-Print Assumptions C17_unsigned64_negative_refuted.
+Theorem C17_unsigned64_int64_exact : forall f off m,
+  ty f = UnsignedOffset -> wf_contig64 f -> int64 off -> bits f + discard f <= 63 ->
+  encode_offset f off = Some m -> 0 <= off /\ decode_unsigned f m = off.
+Proof. exact unsigned64_int64_exact. Qed.
+Print Assumptions C17_unsigned64_int64_exact.
 
 (* byte level (write_offset on a region: value_offset, little-endian word of vsize bytes): length and every byte outside
    [value_offset, value_offset + vsize) unchanged; the bytes inside are the little-endian split of write_offset's word *)
